@@ -1,5 +1,6 @@
 import H264.C14
 import H264.Mono
+import H264.BitsProof
 /-! # C14 — more_rbsp_data / trailing-bits checks are exact at every bit position
 
 A position in an RBSP is the list of bits still to be read (`Src.bits`); `fin = eof` is the complete RBSP.
@@ -39,5 +40,10 @@ theorem finish_sei_table (bits : List Bool) :
 /-- non-vacuity: cabac_zero_words (`0x0000` pairs) after the stop bit are tolerated -/
 example : finishRbsp ⟨true :: List.replicate 39 false, .eof⟩ = .ok ((), ⟨[], .eof⟩) := by
   rw [finishRbsp_outcome]; simp [allZero]
+
+/-- on the same complete small domain (first byte × {00, ff, 5a} × bit offset) the model's `hasMore`, `finishRbsp` and
+`finishSei` return what the real `has_more_rbsp_data`, `finish_rbsp`, `finish_sei_payload` returned in this run's graph -/
+theorem model_end_queries_reproduce_code : ∀ b0 : Fin 256, ∀ j : Fin 24,
+    BitsProof.endRow b0.val j.val = (Generated.bitsEnd.getD b0.val []).getD j.val (9, 9, 9) := BitsProof.bits_end_model_eq_code
 
 end C14
